@@ -46,6 +46,7 @@ def notified_by_caller(prog, R, bid):
 
 
 @rule("C06", "R06.1", "every append to the backlog is followed by a notify on the message signal (at most guarded by `backlog non-empty`)", floor=3)
+@rule("C15", "R06.1", "every append to the backlog is followed by a notify on the message signal (at most guarded by `backlog non-empty`)", floor=3)
 @rule("C05", "R06.1", "every append to the backlog is followed by a notify on the message signal (at most guarded by `backlog non-empty`)", floor=3)
 @rule("C04", "R06.1", "every append to the backlog is followed by a notify on the message signal (at most guarded by `backlog non-empty`)", floor=3)
 def r06_1(prog, out):
@@ -89,6 +90,7 @@ def r06_1(prog, out):
 
 
 @rule("C06", "R06.2", "a pull that leaves messages behind re-notifies", floor=1)
+@rule("C15", "R06.2", "a pull that leaves messages behind re-notifies", floor=1)
 def r06_2(prog, out):
     R = roles(prog)
     for bid, effs in R.poppers():
